@@ -457,6 +457,11 @@ func (s *sessSys) renamer() *vRenamer {
 				}
 			}
 		}
+		if x.GivenAddr != 0 {
+			if _, ok := rn.ue[x.GivenAddr]; !ok {
+				rn.ue[x.GivenAddr] = fmt.Sprintf("U%d", len(rn.ue))
+			}
+		}
 	}
 	return rn
 }
@@ -542,16 +547,12 @@ func (s *sessSys) key() string {
 		p.mu.Lock()
 		// The order of the free list depends on map iteration when an association with several sessions ends (Shutdown
 		// ranges over a sync.Map); it only decides which literal address a later session gets, and every oracle is invariant
-		// under renaming of addresses, so the key keeps the free set, not the order.
-		free := make([]string, 0, len(p.freePool))
-		for _, ip := range p.freePool {
-			free = append(free, ip.String())
-		}
-		sort.Strings(free)
-		fmt.Fprintf(&b, "pool free=%v inv=", free)
+		// under renaming of addresses, so the key keeps the number of free addresses and the held ones under their renamed
+		// form (a key with literal addresses made one history reach two keys: establish twice, release, associate, establish).
+		fmt.Fprintf(&b, "pool free=%d inv=", len(p.freePool))
 		var inv []string
 		for k, v := range p.inventory {
-			inv = append(inv, rn.S(k)+">"+v.String())
+			inv = append(inv, rn.S(k)+">"+rn.U(vIP4(v.String())))
 		}
 		sort.Strings(inv)
 		fmt.Fprintln(&b, inv)
